@@ -169,3 +169,21 @@ Example alias_is_a_member :
   snd (alias_read am3 (QContains "Q") (fst mA)) = Ret (VBool false) /\
   snd (alias_read (mkAobj [("A", "Q")] []) (QContains "A") (fst mA)) = Ret (VBool false).
 Proof. vm_compute. repeat split. Qed.
+
+(* ---- reindex() of the aliased model mA onto periods 2001..2003: hypotheses of alias_reindex_twin / reindex_plain_inv satisfiable *)
+Example reindex_mA :
+  let r := alias_reindex am3 (np_fill CModel) [2001; 2002; 2003]%Z (fst mA) in
+  (forall x, In x (index (fst mA)) -> ~ In x (akeys (amap am3))) /\
+  (forall x, assoc x (vars (fst mA)) <> None -> In x (index (fst mA))) /\
+  (exists s', r = Ret s' /\ span s' = [2001; 2002; 2003]%Z /\
+     assoc "X" (vars s') = Some (mkVar DFloat [3] [PFlt (FHalf 10); PFlt (FHalf 12); PFlt FNaN]%Z) /\
+     assoc "status" (vars s') = Some (mkVar (DStr 1) [3] [PStr "-"; PStr "-"; PStr "-"]) /\
+     assoc "iterations" (vars s') = Some (mkVar DInt [3] [PInt (-1); PInt (-1); PInt (-1)]%Z) /\
+     assoc "A" (vars s') = None).
+Proof.
+  split; [exact (proj2 (proj2 hooks_on_mA))|]. split.
+  - intros x H. replace (index (fst mA)) with (map fst (vars (fst mA))) by (vm_compute; reflexivity).
+    destruct (in_dec string_dec x (map fst (vars (fst mA)))) as [I|N]; [exact I|].
+    exfalso. apply H. apply assoc_none_iff. exact N.
+  - eexists. split; [vm_compute; reflexivity|]. vm_compute. repeat split.
+Qed.
